@@ -1,5 +1,6 @@
 """C15 -- elastic-network bonds: the force constant of a pair, verified pointwise (one arbitrary matrix index)."""
 from pyvc.api import *
+from pyvc.builtins import _int
 
 F = 'vermouth/processors/apply_rubber_band.py'
 
@@ -60,7 +61,9 @@ def setup_arb(cx):
     any_nan = cx.uf('any_nan', [Pos], TBool)               # some coordinate of the position is NaN
     all_nan = cx.uf('all_nan', [Pos], TBool)               # every coordinate is NaN
     distf = cx.uf('distf', [Pos, Pos], TReal)              # Euclidean distance
-    connf = cx.uf('connf', [NKey, NKey], TBool)            # residues closer than res_min_dist along the residue graph
+    # connx(x, y): the residues of the atoms with matrix indices x and y are within res_min_dist bonds of each other in the residue
+    # graph (`close` of build_connectivity_matrix's contract)
+    connx = cx.uf('connx', [TInt, TInt], TBool)
     domf = cx.uf('domf', [NKey, NKey], TBool)              # domain_criterion(molecule, a, b)
     cx.uf('exp_', [TReal], TReal)
     cx.uf('pow_', [TReal, TReal], TReal)
@@ -178,8 +181,21 @@ def setup_arb(cx):
         return NodeRec.get(nty.at(ne, st.at(sel_list, i)), 0)
 
     def bcm(e, mol, res_min_dist, node_to_idx, selected_nodes=None):
-        sl = to_z3(selected_nodes, TSeq(TInt))
-        return PArr(connf(keysel(sl, I_), keysel(sl, J_)), I_ == J_, (I_, J_))
+        # build_connectivity_matrix by its contract (proved below): it requires node_to_idx to give every atom its matrix index
+        # and the selected indices to be in range; entry (a, b) is True exactly for different atoms of residues within the
+        # separation
+        sl, st = to_z3(selected_nodes, TSeq(TInt)), TSeq(TInt)
+        mt = TMap(NKey, TInt)
+        me = to_z3(node_to_idx, mt)
+        i = z3.Int('bcm_i')
+        n = nty.len(ne)
+        key_i = NodeRec.get(nty.at(ne, i), 0)
+        e.oblige(z3.ForAll([i], z3.Implies(z3.And(0 <= i, i < n), z3.And(mt.has(me, key_i), mt.at(me, key_i) == i))),
+                 'pre:build_connectivity_matrix:node_to_idx')
+        e.oblige(z3.ForAll([i], z3.Implies(z3.And(0 <= i, i < st.len(sl)), z3.And(0 <= st.at(sl, i), st.at(sl, i) < n))),
+                 'pre:build_connectivity_matrix:selected_nodes')
+        xi, xj = st.at(sl, I_), st.at(sl, J_)
+        return PArr(z3.And(xi != xj, connx(xi, xj)), I_ == J_, (I_, J_))
 
     def bpm(e, mol, criterion, idx_to_node, selected_nodes=None):
         # build_pair_matrix by its contract (proved below): entry (a, b), a before b, is the criterion's answer for the nodes
@@ -212,7 +228,7 @@ SPEC_ARB = {
     # the documented force constant of a pair at distance d: 0 beyond the cut-off or below the minimum, capped at the base
     'kdoc': "lambda d: 0 if (d > upper_bound or kd(d) < minimum_force) else (kd(d) if kd(d) <= base_constant else base_constant)",
     # ... of the a-th and b-th selected atoms: 0 unless different atoms of one domain whose residues are far enough apart
-    'FC': "lambda s, a, b: kdoc(D(s, a, b)) if (a != b and not connf(key(s[a]), key(s[b])) and domf(key(s[a]), key(s[b]))) else 0",
+    'FC': "lambda s, a, b: kdoc(D(s, a, b)) if (a != b and not connx(s[a], s[b]) and domf(key(s[a]), key(s[b]))) else 0",
     'selected_exactly': "lambda s: forall(lambda p: implies(0 <= p and p < len(s), 0 <= s[p] and s[p] < len(nodes) and sel(attr(s[p])))) and "
                         "forall(lambda p, q: implies(0 <= p and p < q and q < len(s), s[p] < s[q])) and "
                         "forall(lambda i: implies(0 <= i and i < len(nodes) and sel(attr(i)), i in g_rank and 0 <= g_rank[i] and "
@@ -226,6 +242,7 @@ L1_INV = [
     "forall(lambda i: implies(0 <= i and i < _i and sel(attr(i)), i in g_rank and 0 <= g_rank[i] and g_rank[i] < len(selection) and "
     "   selection[g_rank[i]] == i))",
     "forall(lambda i: implies(0 <= i and i < _i, i in idx_to_node and idx_to_node[i] == key(i)))",
+    "forall(lambda i: implies(0 <= i and i < _i, key(i) in node_to_idx and node_to_idx[key(i)] == i))",
     "implies(len(missing) == 0, forall(lambda p: implies(0 <= p and p < len(coordinates), coordinates[p] is not None)))",
     "implies(len(missing) > 0, 0 <= g_miss and g_miss < len(coordinates) and coordinates[g_miss] is None)",
 ]
@@ -295,35 +312,10 @@ def _pair(a, b):
     return Pair.mk(to_z3(a, TInt), to_z3(b, TInt))
 
 
-def setup_bpm(cx):
-    from pyvc.builtins import _int as _i_
-    from pyvc.values import IterV
+def _matrix_model(cx, M):
+    """numpy.zeros for a square boolean matrix, seen as the set M of index pairs that hold True: element reads and writes,
+    and matrix[:, cols][rows]."""
     st = TSeq(TInt)
-    n_nodes = cx.val('n_nodes', TInt)
-    sel = cx.val('selected_nodes', st)
-    cx.spec_env['n_nodes'], cx.spec_env['SEL'] = n_nodes, sel
-    node_of = cx.uf('node_of', [TInt], NKey)
-    crit = cx.uf('crit', [NKey, NKey], TBool)                 # what the criterion answers for two node keys (a pure function)
-    M = cx.heap('M', Box(PairSet))
-    pa, pb, pk = cx.uf('pair_a', [TInt], TInt), cx.uf('pair_b', [TInt], TInt), cx.uf('pair_k', [TInt, TInt], TInt)
-    NP = z3.Int('n_pairs')
-    cx.spec_env['n_pairs'] = SV(TInt, NP)
-
-    def combinations(e, items, r):
-        # assumed contract of itertools.combinations(seq, 2): pairs of positions a < b, every such pair among them
-        # (that each comes once is not needed: asking the criterion twice for one pair gives the same answer)
-        if r != 2:
-            raise EngineError('combinations(_, %r)' % (r,))
-        se = to_z3(items, st)
-        n = st.len(se)
-        p, a, b = z3.Ints('cp ca cb')
-        e.assume(NP >= 0)
-        e.assume(z3.ForAll([p], z3.Implies(z3.And(0 <= p, p < NP), z3.And(0 <= pa(p), pa(p) < pb(p), pb(p) < n))))
-        e.assume(z3.ForAll([a, b], z3.Implies(z3.And(0 <= a, a < b, b < n), z3.And(0 <= pk(a, b), pk(a, b) < NP, pa(pk(a, b)) == a,
-                                                                            pb(pk(a, b)) == b)),
-                           patterns=[pk(a, b)]))
-        return IterV(NP, lambda q: (SV(TInt, st.at(se, pa(_i_(q)))), SV(TInt, st.at(se, pb(_i_(q))))))
-    cx.spec_env['itertools'] = Obj('itertools', combinations=Builtin(combinations, 'itertools.combinations'))
 
     def zeros(e, shape, dtype=None):
         # a boolean matrix, seen as the set of index pairs that hold True; numpy.zeros: none does
@@ -354,6 +346,40 @@ def setup_bpm(cx):
             M.e = z3.Store(M.e, _pair(*k), to_z3(v, TBool))
         m.attrs['__getitem__'], m.attrs['__setitem__'] = Builtin(getitem, 'matrix[]'), Builtin(setitem, 'matrix[]=')
         return m
+    return zeros
+
+
+def setup_bpm(cx):
+    from pyvc.builtins import _int as _i_
+    from pyvc.values import IterV
+    st = TSeq(TInt)
+    n_nodes = cx.val('n_nodes', TInt)
+    sel = cx.val('selected_nodes', st)
+    cx.spec_env['n_nodes'], cx.spec_env['SEL'] = n_nodes, sel
+    node_of = cx.uf('node_of', [TInt], NKey)
+    crit = cx.uf('crit', [NKey, NKey], TBool)                 # what the criterion answers for two node keys (a pure function)
+    M = cx.heap('M', Box(PairSet))
+    pa, pb, pk = cx.uf('pair_a', [TInt], TInt), cx.uf('pair_b', [TInt], TInt), cx.uf('pair_k', [TInt, TInt], TInt)
+    NP = z3.Int('n_pairs')
+    cx.spec_env['n_pairs'] = SV(TInt, NP)
+
+    def combinations(e, items, r):
+        # assumed contract of itertools.combinations(seq, 2): pairs of positions a < b, every such pair among them
+        # (that each comes once is not needed: asking the criterion twice for one pair gives the same answer)
+        if r != 2:
+            raise EngineError('combinations(_, %r)' % (r,))
+        se = to_z3(items, st)
+        n = st.len(se)
+        p, a, b = z3.Ints('cp ca cb')
+        e.assume(NP >= 0)
+        e.assume(z3.ForAll([p], z3.Implies(z3.And(0 <= p, p < NP), z3.And(0 <= pa(p), pa(p) < pb(p), pb(p) < n))))
+        e.assume(z3.ForAll([a, b], z3.Implies(z3.And(0 <= a, a < b, b < n), z3.And(0 <= pk(a, b), pk(a, b) < NP, pa(pk(a, b)) == a,
+                                                                            pb(pk(a, b)) == b)),
+                           patterns=[pk(a, b)]))
+        return IterV(NP, lambda q: (SV(TInt, st.at(se, pa(_i_(q)))), SV(TInt, st.at(se, pb(_i_(q))))))
+    cx.spec_env['itertools'] = Obj('itertools', combinations=Builtin(combinations, 'itertools.combinations'))
+
+    zeros = _matrix_model(cx, M)
     cx.spec_env['np'] = Obj('numpy', zeros=Builtin(zeros, 'numpy.zeros'))
     graph = Obj('graph', nodes=Obj('NodeView', __len__=Builtin(lambda e: n_nodes, 'len(graph.nodes)')))
     idx_to_node = Obj('idx_to_node', __getitem__=Builtin(lambda e, i: SV(NKey, node_of(to_z3(i, TInt))), 'idx_to_node[]'))
@@ -389,3 +415,126 @@ build_pair_matrix = FunctionContract(
             ("share_domain[kdx, jdx] = criterion(graph, key_kdx, key_jdx)", "share_domain[kdx, jdx] = criterion(graph, key_jdx, key_kdx)")],
 )
 CONTRACTS.append(build_pair_matrix)
+
+
+# ------------------------------------------------------------------ build_connectivity_matrix: residues within the separation
+def setup_bcm(cx):
+    from pyvc.values import IterV
+    st = TSeq(TInt)
+    n_nodes, n_res, separation = cx.val('n_nodes', TInt), cx.val('n_res', TInt), cx.val('separation', TInt)
+    sel = cx.val('selected_nodes', st)
+    cx.spec_env.update(n_nodes=n_nodes, n_res=n_res, SEL=sel)
+    N, R = n_nodes.e, n_res.e
+    cx.assume(z3.And(N >= 0, R >= 0))
+    M = cx.heap('M', Box(PairSet))
+    # make_residue_graph by its contract: the atoms are partitioned into residues 0 .. n_res-1; atom(r, k) is the k-th atom of
+    # residue r, res_of / slot give the residue and the place of the atom with a given matrix index (node_to_idx = idx_of)
+    atom, na = cx.uf('atom', [TInt, TInt], NKey), cx.uf('na', [TInt], TInt)
+    idx_of, res_of, slot = cx.uf('idx_of', [NKey], TInt), cx.uf('res_of', [TInt], TInt), cx.uf('slot', [TInt], TInt)
+    r, k, x, t = z3.Ints('mr mk mx mt')
+    cx.assume(z3.ForAll([r, k], z3.Implies(z3.And(0 <= r, r < R, 0 <= k, k < na(r)),
+                                           z3.And(0 <= idx_of(atom(r, k)), idx_of(atom(r, k)) < N, res_of(idx_of(atom(r, k))) == r,
+                                                  slot(idx_of(atom(r, k))) == k)), patterns=[atom(r, k)]))
+    cx.assume(z3.ForAll([x], z3.Implies(z3.And(0 <= x, x < N), z3.And(0 <= res_of(x), res_of(x) < R, 0 <= slot(x), slot(x) < na(res_of(x)),
+                                                                      idx_of(atom(res_of(x), slot(x))) == x)), patterns=[res_of(x)]))
+    cx.assume(z3.ForAll([r], na(r) >= 0, patterns=[na(r)]))
+    # networkx.all_pairs_shortest_path_length(res_graph, cutoff) by its contract: for every residue r, the residues within
+    # `cutoff` bonds of r (near(r, t); r itself included), each once: wat(r, k), k < nw(r), with inverse wpos
+    near = cx.uf('near', [TInt, TInt], TBool)
+    nw, wat, wpos = cx.uf('nw', [TInt], TInt), cx.uf('wat', [TInt, TInt], TInt), cx.uf('wpos', [TInt, TInt], TInt)
+    cx.assume(z3.ForAll([r, k], z3.Implies(z3.And(0 <= r, r < R, 0 <= k, k < nw(r)),
+                                           z3.And(0 <= wat(r, k), wat(r, k) < R, near(r, wat(r, k)), wpos(r, wat(r, k)) == k)),
+                        patterns=[wat(r, k)]))
+    cx.assume(z3.ForAll([r, t], z3.Implies(z3.And(0 <= r, r < R, 0 <= t, t < R, near(r, t)),
+                                           z3.And(0 <= wpos(r, t), wpos(r, t) < nw(r), wat(r, wpos(r, t)) == t)), patterns=[near(r, t)]))
+    cx.assume(z3.ForAll([r], nw(r) >= 0, patterns=[nw(r)]))
+
+    def atoms_of(ri):
+        o = Obj('subgraph')
+        o.attrs['nodes'] = Builtin(lambda e: Obj('NodeView', res=ri), 'subgraph.nodes')
+        return o
+    res_graph = Obj('res_graph', nodes=Obj('NodeView', __getitem__=Builtin(
+        lambda e, ri: Obj('resattrs', __getitem__=Builtin(lambda e2, key: atoms_of(to_z3(ri, TInt)) if key == 'graph' else
+                                                          (_ for _ in ()).throw(EngineError('residue[%r]' % (key,))), 'residue[]')),
+        'res_graph.nodes[]')))
+    graph = Obj('graph', number_of_nodes=Builtin(lambda e: n_nodes, 'graph.number_of_nodes'))
+    cx.spec_env['make_residue_graph'] = Builtin(
+        lambda e, g: res_graph if g is graph else (_ for _ in ()).throw(EngineError('residue graph of another graph')), 'make_residue_graph')
+
+    def apspl(e, g, cutoff=None):
+        if g is not res_graph or not isinstance(cutoff, SV) or not z3.eq(cutoff.e, separation.e):
+            raise EngineError('all_pairs_shortest_path_length of another graph or cutoff')
+
+        def targets(ri):
+            o = Obj('lengths')
+            o.__dict__['iter'] = IterV(nw(ri), lambda q: SV(TInt, wat(ri, _int(q))))
+            return o
+        return IterV(R, lambda q: (SV(TInt, _int(q)), targets(_int(q))))
+    cx.spec_env['nx'] = Obj('networkx', all_pairs_shortest_path_length=Builtin(apspl, 'networkx.all_pairs_shortest_path_length'))
+    pa, pb = cx.uf('prod_a', [TInt, TInt, TInt], TInt), cx.uf('prod_b', [TInt, TInt, TInt], TInt)
+    pk, npq = cx.uf('prod_k', [TInt, TInt, TInt, TInt], TInt), cx.uf('prod_n', [TInt, TInt], TInt)
+
+    def product(e, xs, ys):
+        # assumed contract of itertools.product(xs, ys): every pair of a position in xs and a position in ys, exactly once
+        ra, rb = xs.attrs['res'], ys.attrs['res']
+        p, a, b = z3.Ints('pp pa_ pb_')
+        e.assume(npq(ra, rb) >= 0)
+        e.assume(z3.ForAll([p], z3.Implies(z3.And(0 <= p, p < npq(ra, rb)),
+                                           z3.And(0 <= pa(ra, rb, p), pa(ra, rb, p) < na(ra), 0 <= pb(ra, rb, p), pb(ra, rb, p) < na(rb),
+                                                  pk(ra, rb, pa(ra, rb, p), pb(ra, rb, p)) == p)), patterns=[pa(ra, rb, p)]))
+        e.assume(z3.ForAll([a, b], z3.Implies(z3.And(0 <= a, a < na(ra), 0 <= b, b < na(rb)),
+                                              z3.And(0 <= pk(ra, rb, a, b), pk(ra, rb, a, b) < npq(ra, rb), pa(ra, rb, pk(ra, rb, a, b)) == a,
+                                                     pb(ra, rb, pk(ra, rb, a, b)) == b)), patterns=[pk(ra, rb, a, b)]))
+        return IterV(npq(ra, rb), lambda q: (SV(NKey, atom(ra, pa(ra, rb, _int(q)))), SV(NKey, atom(rb, pb(ra, rb, _int(q))))))
+    cx.spec_env['itertools'] = Obj('itertools', product=Builtin(product, 'itertools.product'))
+    zeros = _matrix_model(cx, M)
+
+    def fill_diagonal(e, m, v):
+        if m.cls != 'ndarray' or v is not False:
+            raise EngineError('numpy.fill_diagonal(%r, %r)' % (m, v))
+        old = M.e
+        new = e.fresh_val(PairSet, 'undiag').e
+        a, b = z3.Ints('fa fb')
+        e.assume(z3.ForAll([a, b], z3.Select(new, Pair.mk(a, b)) == z3.And(z3.Select(old, Pair.mk(a, b)), a != b),
+                           patterns=[z3.Select(new, Pair.mk(a, b))]))
+        M.e = new
+    cx.spec_env['np'] = Obj('numpy', zeros=Builtin(zeros, 'numpy.zeros'), fill_diagonal=Builtin(fill_diagonal, 'numpy.fill_diagonal'))
+    node_to_idx = Obj('node_to_idx', __getitem__=Builtin(lambda e, key: SV(TInt, idx_of(to_z3(key, NKey))), 'node_to_idx[]'))
+    return dict(graph=graph, separation=separation, node_to_idx=node_to_idx, selected_nodes=sel)
+
+
+SPEC_BCM = {
+    'inr': "lambda x, y: 0 <= x and x < n_nodes and 0 <= y and y < n_nodes",
+    # the atoms with indices x and y lie in residues within the separation of each other
+    'close': "lambda x, y: near(res_of(x), res_of(y))",
+    'done_res': "lambda x, y, r: res_of(x) < r and close(x, y)",
+    'done_tgt': "lambda x, y, r, j: res_of(x) == r and close(x, y) and wpos(r, res_of(y)) < j",
+}
+BCM_RANGE = "forall(lambda x, y: implies((x, y) in M, inr(x, y)))"
+build_connectivity_matrix = FunctionContract(
+    F, 'build_connectivity_matrix', 'C15', setup=setup_bcm, spec_defs=SPEC_BCM, spec_env=dict(NKey=NKey),
+    requires=["forall(lambda a: implies(0 <= a and a < len(SEL), 0 <= SEL[a] and SEL[a] < n_nodes))"],
+    ensures=[
+        # entry (a, b) of the result is True exactly when the a-th and b-th selected atoms are different atoms whose residues are
+        # within `separation` bonds of each other in the residue graph
+        "forall(lambda a, b: implies(0 <= a and a < len(SEL) and 0 <= b and b < len(SEL), "
+        "   ((a, b) in result) == (SEL[a] != SEL[b] and close(SEL[a], SEL[b]))))",
+    ],
+    modifies=['M'],
+    loops={
+        'L1': LoopSpec(inv=[BCM_RANGE, "forall(lambda x, y: implies(inr(x, y), ((x, y) in M) == done_res(x, y, _i)))"], modifies=['M']),
+        'L1.1': LoopSpec(inv=[BCM_RANGE, "0 <= origin_residue and origin_residue < n_res",
+                              "forall(lambda x, y: implies(inr(x, y), ((x, y) in M) == (done_res(x, y, origin_residue) or "
+                              "   done_tgt(x, y, origin_residue, _i))))"], modifies=['M']),
+        'L1.1.1': LoopSpec(inv=[BCM_RANGE, "0 <= origin_residue and origin_residue < n_res and 0 <= target_residue and target_residue < n_res",
+                                "near(origin_residue, target_residue)",
+                                "forall(lambda x, y: implies(inr(x, y), ((x, y) in M) == (done_res(x, y, origin_residue) or "
+                                "   done_tgt(x, y, origin_residue, wpos(origin_residue, target_residue)) or "
+                                "   (res_of(x) == origin_residue and res_of(y) == target_residue and "
+                                "    prod_k(origin_residue, target_residue, slot(x), slot(y)) < _i))))"], modifies=['M']),
+    },
+    canary=[("np.fill_diagonal(connectivity, False)", "pass"),
+            ("connectivity[node_to_idx[origin], node_to_idx[target]] = True", "connectivity[node_to_idx[target], node_to_idx[target]] = True"),
+            ("target_nodes = res_graph.nodes[target_residue]['graph'].nodes()", "target_nodes = res_graph.nodes[origin_residue]['graph'].nodes()")],
+)
+CONTRACTS.append(build_connectivity_matrix)
